@@ -2,8 +2,11 @@ package main
 
 import (
 	"fmt"
+	"math"
 	"sort"
 	"strings"
+
+	"github.com/akrylysov/pogreb"
 
 	"verifharness/interp"
 	"verifharness/tfs"
@@ -442,11 +445,83 @@ func genPowerLoss(prop string) func(r *rng, tier string, res *Result) {
 		}
 		// the histories themselves (every call, every file-system event incl. the Syncs) against the model
 		runCases(res, plCases, plImpls, !noModel)
+		if prop == "C09" {
+			c09CloseFaults(r, tier, res)
+		}
 		if res.Tags == nil {
 			res.Tags = map[string]int{}
 		}
 		res.Tags["power_failure_instants"] = stats.instants
 		res.Tags["power_loss_images_reopened"] = stats.images
 		res.SpecChecked += stats.images
+	}
+}
+
+// c09CloseFaults: "after Close returns nil" is the premise of C09, so a Close that returns nil must
+// have flushed everything -- also when one of its file-system calls failed. The k-th data call of
+// Close (WriteAt / Sync / Truncate on an open file) fails once, for every k; when Close nevertheless
+// returns nil, power fails right away and every admissible image must reopen to the closed contents.
+func c09CloseFaults(r *rng, tier string, res *Result) {
+	for _, syncMode := range []bool{false, true} {
+		for k := 0; k < 60; k++ {
+			t := tfs.New()
+			o := &pogreb.Options{FileSystem: t}
+			if syncMode {
+				o.BackgroundSyncInterval = -1
+			}
+			pogreb.VerifSetThresholds(o, 1024, 512, math.Float32frombits(fragBits(0.3)))
+			db, err := pogreb.Open("db", o)
+			if err != nil {
+				return
+			}
+			ref := map[string][]byte{}
+			var keys [][]byte
+			nput := 50 + r.intn(20)
+			for i := 0; i < nput; i++ {
+				kk, vv := []byte(fmt.Sprintf("key-%03d", i%40)), r.bytes(20+r.intn(40))
+				if i < 40 {
+					keys = append(keys, kk)
+				}
+				if db.Put(kk, vv) == nil {
+					ref[string(kk)] = vv
+				}
+			}
+			for i := 0; i < 40; i += 9 {
+				if db.Delete(keys[i]) == nil {
+					delete(ref, string(keys[i]))
+				}
+			}
+			t.FailWriteCall = t.WriteCalls + k
+			cerr := db.Close()
+			reached := t.WriteCalls > t.FailWriteCall
+			t.FailWriteCall = -1
+			if !reached {
+				break // Close makes fewer than k data calls: all injection points done
+			}
+			res.Tags["close_fault_injection_points"]++
+			if cerr != nil {
+				continue // Close reported the failure: not a checkpoint, C09 says nothing
+			}
+			res.Tags["close_returned_nil_despite_a_failing_call"]++
+			oracle := newPLOracle()
+			oracle.syncedNow(ref)
+			pcmd := fmt.Sprintf("params 1024 512 %d %d", fragBits(0.3), b2i(syncMode))
+			for _, img := range plImages(r, t.Base(), t.Events(0, t.NumEvents()), t.NumEvents(), tier == "thorough") {
+				res.Tags["power_loss_images_reopened"]++
+				got, errs := readAll(img, "db", pcmd)
+				why := errs
+				if why == "" {
+					why = oracle.check(got, keys)
+				}
+				if why != "" {
+					res.Findings = append(res.Findings, &Finding{Kind: "spec", Case: fmt.Sprintf("C09/close-fault/%v/%d", syncMode, k),
+						Cmd:      fmt.Sprintf("Close with its data call number %d (WriteAt/Sync/Truncate on an open file) failing once returned nil; power failure right after", k),
+						Impl:     []string{why},
+						Expected: []string{"after Close returns nil the next Open yields exactly the closed contents"},
+						Program:  []string{"open (1 KiB segments, sync-after-every-write=" + fmt.Sprint(syncMode) + ")", fmt.Sprintf("%d x put on 40 keys, 5 x delete", nput), fmt.Sprintf("close with data call %d failing once -> nil", k), "power failure; open"}})
+					return
+				}
+			}
+		}
 	}
 }
